@@ -27,6 +27,7 @@ impl Query {
 pub fn validate(args: &Value) -> Outcome {
     let schema = Schema::new(Query, EmptyMutation, EmptySubscription);
     let mut req = Request::new(args["query"].as_str().unwrap());
+    if let Some(op) = args["operation"].as_str() { req = req.operation_name(op); }
     if let Some(v) = args.get("variables") { if !v.is_null() { req = req.variables(Variables::from_json(v.clone())); } }
     RAN.store(0, Ordering::SeqCst);
     let resp = schema.execute(req).now_or_never().unwrap();
@@ -105,6 +106,16 @@ pub fn inputs(_seed: u64, open: &[String]) -> impl Iterator<Item = Value> {
     }
     if !open.iter().any(|x| x == "C09-selection-on-typename") {
         v.push(json!({"query": "{ __typename { x } }", "valid": false}));
+    }
+    // a null default for a non-null variable type is a default of the wrong type
+    v.push(json!({"query": "query($n: Int! = null) { add(a: $n) }", "valid": false}));
+    v.push(json!({"query": "query($l: [Int!]! = null) { optList(l: $l) }", "valid": false}));
+    v.push(json!({"query": "query($l: [Int!] = [1, null]) { optList(l: $l) }", "valid": false}));
+    v.push(json!({"query": "query($l: [Int!] = null) { optList(l: $l) }", "valid": true}));
+    // several operations sharing a fragment: a variable used only through the fragment is used by EACH of them
+    for op in ["A", "B"] {
+        v.push(json!({"query": "query A($x: [Int!]) { ...F } query B($x: [Int!]) { ...F value } fragment F on Query { optList(l: $x) }", "operation": op, "valid": true}));
+        v.push(json!({"query": "query A($x: [Int!]) { ...G } query B($x: [Int!]) { ...G } fragment G on Query { ...F } fragment F on Query { optList(l: $x) }", "operation": op, "valid": true}));
     }
     // unknown types in variable definitions, wrapped or not, with and without defaults
     for q in ["query($v: Foo) { value }", "query($v: [Foo]) { value }", "query($v: [Foo!]! = [1]) { value }", "query($v: [Foo] = [1]) { value }", "query($v: [[Foo]] = null) { value }", "query($v: Foo = 1) { value }"] {
